@@ -363,7 +363,7 @@ func (h *Handler) handleCopyMove(w http.ResponseWriter, r *http.Request) (status
 	if dst == "" {
 		return http.StatusBadGateway, errInvalidDestination
 	}
-	if dst == src {
+	if slashClean(dst) == slashClean(src) {
 		return http.StatusForbidden, errDestinationEqualsSource
 	}
 
